@@ -2,8 +2,10 @@ package props
 
 import (
 	"fmt"
+	"math/rand/v2"
 	"reflect"
 	"sync"
+	"sync/atomic"
 
 	"github.com/philpearl/avro"
 
@@ -288,6 +290,133 @@ func c15registration(c *core.Ctx) {
 	}
 }
 
+var c15badSeq atomic.Int64
+
+// c15refusedThenRegistered: generation is a function of the type and the registry as they are at the time of
+// the call. A type is refused while it contains an inexpressible type, accepted once a schema is registered
+// for that type, and the refusals in between leave no trace on other types.
+func c15refusedThenRegistered(c *core.Ctx, r *rand.Rand) {
+	seq := c15badSeq.Add(1)
+	// a brand-new inexpressible type (nothing is registered for it yet)
+	var bad reflect.Type
+	switch r.IntN(3) {
+	case 0:
+		bad = reflect.ChanOf(reflect.BothDir, reflect.ArrayOf(int(1000+seq), reflect.TypeOf(byte(0))))
+	case 1:
+		bad = reflect.FuncOf([]reflect.Type{reflect.ArrayOf(int(1000+seq), reflect.TypeOf(byte(0)))}, nil, false)
+	default:
+		bad = reflect.MapOf(reflect.ArrayOf(int(1000+seq), reflect.TypeOf(byte(0))), reflect.TypeOf(int64(0))) // not string-keyed
+	}
+	good := reflect.TypeOf(int64(0))
+	nbad := 0
+	var build func(leaf reflect.Type, rr *rand.Rand, depth int) reflect.Type
+	build = func(leaf reflect.Type, rr *rand.Rand, depth int) reflect.Type {
+		var fs []reflect.StructField
+		n := 2 + rr.IntN(4)
+		placed := false
+		for k := 0; k < n; k++ {
+			f := reflect.StructField{Name: fmt.Sprintf("F%d", k), Tag: reflect.StructTag(fmt.Sprintf(`json:"f%d"`, k))}
+			switch x := rr.IntN(8); {
+			case x == 0 && depth < 3:
+				f.Type = build(leaf, rr, depth+1)
+				placed = true
+			case x <= 5 && (x <= 2 || !placed):
+				placed = true
+				if leaf == bad {
+					nbad++
+				}
+				switch x {
+				case 1:
+					f.Type = reflect.SliceOf(leaf)
+				case 2:
+					f.Type = reflect.MapOf(reflect.TypeOf(""), leaf)
+				case 3:
+					f.Type = reflect.PointerTo(leaf)
+				case 4:
+					f.Type = leaf
+					f.Tag = reflect.StructTag(fmt.Sprintf(`json:"f%d,omitempty"`, k))
+				default:
+					f.Type = leaf
+				}
+			case x == 6:
+				f.Type = reflect.TypeOf("")
+			default:
+				f.Type = reflect.TypeOf([]float64(nil))
+			}
+			fs = append(fs, f)
+		}
+		if !placed {
+			if leaf == bad {
+				nbad++
+			}
+			fs = append(fs, reflect.StructField{Name: "Last", Type: leaf, Tag: `json:"last"`})
+		}
+		return reflect.StructOf(fs)
+	}
+	seed1, seed2 := r.Uint64(), r.Uint64()
+	outer := build(bad, rand.New(rand.NewPCG(seed1, seed2)), 0)
+	twin := build(good, rand.New(rand.NewPCG(seed1, seed2)), 0)
+	label := fmt.Sprintf("refused-then-registered: %s", trunc(outer.String(), 300))
+	c.Journal(c.CurCase(), label)
+	tw0 := c15call(twin)
+	if tw0.err != nil || tw0.pan != nil {
+		c.Violate("mapping", fmt.Sprintf("expressible type refused: %v %v: %s", tw0.err, tw0.pan, twin), nil)
+		return
+	}
+	for k := 0; k < 2; k++ {
+		r0 := c15call(outer)
+		c.Eval(1)
+		if r0.pan != nil {
+			c.Violate("panic", fmt.Sprintf("SchemaForType panicked on %s: %v", label, r0.pan), nil)
+			return
+		}
+		if r0.err == nil {
+			c.Violate("total", fmt.Sprintf("a type containing the inexpressible type %s was given a schema: %s", bad, label), nil)
+			return
+		}
+		// an unrelated, expressible type of the same shape is unaffected by the refusal
+		if tw := c15call(twin); tw.err != nil || !reflect.DeepEqual(libToIR(tw.s), libToIR(tw0.s)) {
+			c.Violate("deterministic", fmt.Sprintf("after a refused generation an expressible type gives err=%v / a different schema: %s", tw.err, twin), nil)
+			return
+		}
+	}
+	tag := fmt.Sprintf("c15-bad-%d", seq)
+	avro.RegisterSchema(bad, avro.Schema{Type: "long", Object: &avro.SchemaObject{LogicalType: tag}})
+	r1 := c15call(outer)
+	c.Eval(1)
+	if r1.err != nil || r1.pan != nil {
+		c.Violate("registered", fmt.Sprintf("after registering a schema for %s the type that was refused before is still refused: err=%v panic=%v: %s", bad, r1.err, r1.pan, label), nil)
+		return
+	}
+	// the registered schema sits exactly where the twin has its long
+	ir := libToIR(r1.s)
+	tagged := 0
+	var strip func(s *refavro.Schema)
+	strip = func(s *refavro.Schema) {
+		if s == nil {
+			return
+		}
+		if s.Type == "long" && s.LogicalType == tag {
+			tagged++
+			*s = refavro.Schema{Type: "long"}
+		}
+		for k := range s.Fields {
+			strip(s.Fields[k].Type)
+		}
+		strip(s.Items)
+		strip(s.Values)
+		for _, b := range s.Branches {
+			strip(b)
+		}
+	}
+	strip(ir)
+	if d := refavro.Diff(ir, libToIR(tw0.s), "schema"); d != "" || tagged != nbad {
+		c.Violate("registered", fmt.Sprintf("after registering a schema for the inexpressible type: %d positions carry it (type has %d), difference to the same type with int64 there: %s: %s", tagged, nbad, d, label), nil)
+		return
+	}
+	c.Count("refused-then-registered-ok", 1)
+}
+
 func runC15(c *core.Ctx, i int) {
 	ns := len(statictypes.Cases)
 	nr := len(statictypes.RecursiveCases)
@@ -304,6 +433,7 @@ func runC15(c *core.Ctx, i int) {
 		c15one(c, sc.IR, "static-recursive:"+sc.Name, true)
 	default:
 		r := c.Rand(i, 0)
+		c15refusedThenRegistered(c, r)
 		for k := 0; k < 16; k++ {
 			o := gen.TypeOpts{MaxDepth: 1 + r.IntN(4), MaxFields: 1 + r.IntN(7), WeirdNames: r.IntN(3) == 0, AllKinds: r.IntN(2) == 0}
 			t := gen.GenStruct(r, o)
@@ -353,6 +483,9 @@ func init() {
 			}
 			if a.C("class.unsupported") < 100 || a.C("class.unspecified") < 100 {
 				u = append(u, "too few unsupported/unspecified types")
+			}
+			if a.C("refused-then-registered-ok") < 1000 {
+				u = append(u, fmt.Sprintf("refused-then-registered-ok=%d < 1000", a.C("refused-then-registered-ok")))
 			}
 			if a.C("registration-scenarios-ok") < 3 {
 				u = append(u, fmt.Sprintf("registration-scenarios-ok=%d < 3", a.C("registration-scenarios-ok")))
